@@ -1671,6 +1671,8 @@ def run(chk, F):
     green = rule_r3(chk, c, roles, F)
     rule_r4(chk, c, roles)
     rule_r5(chk, c, roles, green)
+    from rules import c16_text
+    c16_text.run(chk, F)
     chk.assumptions += [
         "PARTIAL: decides the structural conservation laws of the lossless-tree mechanism (who may write the cursor "
         "state; Δtoken_idx == Δadvances + Δleading per cursor primitive; one token per Advance and child-length "
